@@ -116,44 +116,16 @@ macro_rules! int_harness {
 int_harness!(atomic_u64_fetch_max, AtomicU64, std::sync::atomic::AtomicU64, u64, 2);
 //@H atomic_i8_fetch_add @prop C12 @tier thorough @mode fast @cost 3 @timeout 3600 @funcs AtomicI8::new,AtomicI8::fetch_add,AtomicI8::unsync_load,Atomic::rmw,Atomic::try_rmw,rt::Atomic::rmw,Numeric::into_u64,Numeric::from_u64 @bounds one operation after new; every i8 initial value and operand (full width); every valid ordering :: AtomicI8::fetch_add returns what std's returns (including the Ok/Err shape) and leaves std's content, for all operand values including wrap-around and sign/width boundaries
 int_harness!(atomic_i8_fetch_add, AtomicI8, std::sync::atomic::AtomicI8, i8, 0);
-//@H atomic_i16_compare_exchange @prop C12 @tier thorough @mode fast @cost 3 @timeout 3600 @funcs AtomicI16::new,AtomicI16::compare_exchange,AtomicI16::unsync_load,Atomic::rmw,Atomic::try_rmw,rt::Atomic::rmw,Numeric::into_u64,Numeric::from_u64 @bounds one operation after new; every i16 initial value and operand (full width); every valid ordering :: AtomicI16::compare_exchange returns what std's returns (including the Ok/Err shape) and leaves std's content, for all operand values including wrap-around and sign/width boundaries
-int_harness!(atomic_i16_compare_exchange, AtomicI16, std::sync::atomic::AtomicI16, i16, 9);
 //@H atomic_usize_fetch_min @prop C12 @tier thorough @mode fast @cost 3 @timeout 3600 @funcs AtomicUsize::new,AtomicUsize::fetch_min,AtomicUsize::unsync_load,Atomic::rmw,Atomic::try_rmw,rt::Atomic::rmw,Numeric::into_u64,Numeric::from_u64 @bounds one operation after new; every usize initial value and operand (full width); every valid ordering :: AtomicUsize::fetch_min returns what std's returns (including the Ok/Err shape) and leaves std's content, for all operand values including wrap-around and sign/width boundaries
 int_harness!(atomic_usize_fetch_min, AtomicUsize, std::sync::atomic::AtomicUsize, usize, 3);
 //@H atomic_i64_fetch_max @prop C12 @tier thorough @mode fast @cost 3 @timeout 3600 @funcs AtomicI64::new,AtomicI64::fetch_max,AtomicI64::unsync_load,Atomic::rmw,Atomic::try_rmw,rt::Atomic::rmw,Numeric::into_u64,Numeric::from_u64 @bounds one operation after new; every i64 initial value and operand (full width); every valid ordering :: AtomicI64::fetch_max returns what std's returns (including the Ok/Err shape) and leaves std's content, for all operand values including wrap-around and sign/width boundaries
 int_harness!(atomic_i64_fetch_max, AtomicI64, std::sync::atomic::AtomicI64, i64, 2);
-//@H atomic_u64_fetch_min @prop C12 @tier thorough @mode fast @cost 3 @timeout 3600 @funcs AtomicU64::new,AtomicU64::fetch_min,AtomicU64::unsync_load,Atomic::rmw,Atomic::try_rmw,rt::Atomic::rmw,Numeric::into_u64,Numeric::from_u64 @bounds one operation after new; every u64 initial value and operand (full width); every valid ordering :: AtomicU64::fetch_min returns what std's returns (including the Ok/Err shape) and leaves std's content, for all operand values including wrap-around and sign/width boundaries
-int_harness!(atomic_u64_fetch_min, AtomicU64, std::sync::atomic::AtomicU64, u64, 3);
-//@H atomic_u64_fetch_add @prop C12 @tier thorough @mode fast @cost 3 @timeout 3600 @funcs AtomicU64::new,AtomicU64::fetch_add,AtomicU64::unsync_load,Atomic::rmw,Atomic::try_rmw,rt::Atomic::rmw,Numeric::into_u64,Numeric::from_u64 @bounds one operation after new; every u64 initial value and operand (full width); every valid ordering :: AtomicU64::fetch_add returns what std's returns (including the Ok/Err shape) and leaves std's content, for all operand values including wrap-around and sign/width boundaries
-int_harness!(atomic_u64_fetch_add, AtomicU64, std::sync::atomic::AtomicU64, u64, 0);
-//@H atomic_i64_fetch_sub @prop C12 @tier thorough @mode fast @cost 3 @timeout 3600 @funcs AtomicI64::new,AtomicI64::fetch_sub,AtomicI64::unsync_load,Atomic::rmw,Atomic::try_rmw,rt::Atomic::rmw,Numeric::into_u64,Numeric::from_u64 @bounds one operation after new; every i64 initial value and operand (full width); every valid ordering :: AtomicI64::fetch_sub returns what std's returns (including the Ok/Err shape) and leaves std's content, for all operand values including wrap-around and sign/width boundaries
-int_harness!(atomic_i64_fetch_sub, AtomicI64, std::sync::atomic::AtomicI64, i64, 1);
 //@H atomic_u32_fetch_nand @prop C12 @tier thorough @mode fast @cost 3 @timeout 3600 @funcs AtomicU32::new,AtomicU32::fetch_nand,AtomicU32::unsync_load,Atomic::rmw,Atomic::try_rmw,rt::Atomic::rmw,Numeric::into_u64,Numeric::from_u64 @bounds one operation after new; every u32 initial value and operand (full width); every valid ordering :: AtomicU32::fetch_nand returns what std's returns (including the Ok/Err shape) and leaves std's content, for all operand values including wrap-around and sign/width boundaries
 int_harness!(atomic_u32_fetch_nand, AtomicU32, std::sync::atomic::AtomicU32, u32, 5);
-//@H atomic_i32_fetch_and @prop C12 @tier thorough @mode fast @cost 3 @timeout 3600 @funcs AtomicI32::new,AtomicI32::fetch_and,AtomicI32::unsync_load,Atomic::rmw,Atomic::try_rmw,rt::Atomic::rmw,Numeric::into_u64,Numeric::from_u64 @bounds one operation after new; every i32 initial value and operand (full width); every valid ordering :: AtomicI32::fetch_and returns what std's returns (including the Ok/Err shape) and leaves std's content, for all operand values including wrap-around and sign/width boundaries
-int_harness!(atomic_i32_fetch_and, AtomicI32, std::sync::atomic::AtomicI32, i32, 4);
-//@H atomic_u16_fetch_or @prop C12 @tier thorough @mode fast @cost 3 @timeout 3600 @funcs AtomicU16::new,AtomicU16::fetch_or,AtomicU16::unsync_load,Atomic::rmw,Atomic::try_rmw,rt::Atomic::rmw,Numeric::into_u64,Numeric::from_u64 @bounds one operation after new; every u16 initial value and operand (full width); every valid ordering :: AtomicU16::fetch_or returns what std's returns (including the Ok/Err shape) and leaves std's content, for all operand values including wrap-around and sign/width boundaries
-int_harness!(atomic_u16_fetch_or, AtomicU16, std::sync::atomic::AtomicU16, u16, 6);
-//@H atomic_isize_fetch_xor @prop C12 @tier thorough @mode fast @cost 3 @timeout 3600 @funcs AtomicIsize::new,AtomicIsize::fetch_xor,AtomicIsize::unsync_load,Atomic::rmw,Atomic::try_rmw,rt::Atomic::rmw,Numeric::into_u64,Numeric::from_u64 @bounds one operation after new; every isize initial value and operand (full width); every valid ordering :: AtomicIsize::fetch_xor returns what std's returns (including the Ok/Err shape) and leaves std's content, for all operand values including wrap-around and sign/width boundaries
-int_harness!(atomic_isize_fetch_xor, AtomicIsize, std::sync::atomic::AtomicIsize, isize, 7);
-//@H atomic_i8_swap @prop C12 @tier thorough @mode fast @cost 3 @timeout 3600 @funcs AtomicI8::new,AtomicI8::swap,AtomicI8::unsync_load,Atomic::rmw,Atomic::try_rmw,rt::Atomic::rmw,Numeric::into_u64,Numeric::from_u64 @bounds one operation after new; every i8 initial value and operand (full width); every valid ordering :: AtomicI8::swap returns what std's returns (including the Ok/Err shape) and leaves std's content, for all operand values including wrap-around and sign/width boundaries
-int_harness!(atomic_i8_swap, AtomicI8, std::sync::atomic::AtomicI8, i8, 8);
 //@H atomic_u16_compare_exchange_weak @prop C12 @tier thorough @mode fast @cost 3 @timeout 3600 @funcs AtomicU16::new,AtomicU16::compare_exchange_weak,AtomicU16::unsync_load,Atomic::rmw,Atomic::try_rmw,rt::Atomic::rmw,Numeric::into_u64,Numeric::from_u64 @bounds one operation after new; every u16 initial value and operand (full width); every valid ordering :: AtomicU16::compare_exchange_weak returns what std's returns (including the Ok/Err shape) and leaves std's content, for all operand values including wrap-around and sign/width boundaries
 int_harness!(atomic_u16_compare_exchange_weak, AtomicU16, std::sync::atomic::AtomicU16, u16, 10);
-//@H atomic_u8_load @prop C12 @tier thorough @mode fast @cost 3 @timeout 3600 @funcs AtomicU8::new,AtomicU8::load,AtomicU8::unsync_load,Atomic::rmw,Atomic::try_rmw,rt::Atomic::rmw,Numeric::into_u64,Numeric::from_u64 @bounds one operation after new; every u8 initial value and operand (full width); every valid ordering :: AtomicU8::load returns what std's returns (including the Ok/Err shape) and leaves std's content, for all operand values including wrap-around and sign/width boundaries
-int_harness!(atomic_u8_load, AtomicU8, std::sync::atomic::AtomicU8, u8, 12);
 //@H atomic_isize_store @prop C12 @tier thorough @mode fast @cost 3 @timeout 3600 @funcs AtomicIsize::new,AtomicIsize::store,AtomicIsize::unsync_load,Atomic::rmw,Atomic::try_rmw,rt::Atomic::rmw,Numeric::into_u64,Numeric::from_u64 @bounds one operation after new; every isize initial value and operand (full width); every valid ordering :: AtomicIsize::store returns what std's returns (including the Ok/Err shape) and leaves std's content, for all operand values including wrap-around and sign/width boundaries
 int_harness!(atomic_isize_store, AtomicIsize, std::sync::atomic::AtomicIsize, isize, 13);
-//@H atomic_i32_compare_and_swap @prop C12 @tier thorough @mode fast @cost 3 @timeout 3600 @funcs AtomicI32::new,AtomicI32::compare_and_swap,AtomicI32::unsync_load,Atomic::rmw,Atomic::try_rmw,rt::Atomic::rmw,Numeric::into_u64,Numeric::from_u64 @bounds one operation after new; every i32 initial value and operand (full width); every valid ordering :: AtomicI32::compare_and_swap returns what std's returns (including the Ok/Err shape) and leaves std's content, for all operand values including wrap-around and sign/width boundaries
-int_harness!(atomic_i32_compare_and_swap, AtomicI32, std::sync::atomic::AtomicI32, i32, 14);
-//@H atomic_u32_with_mut @prop C12 @tier thorough @mode fast @cost 3 @timeout 3600 @funcs AtomicU32::new,AtomicU32::with_mut,AtomicU32::unsync_load,Atomic::rmw,Atomic::try_rmw,rt::Atomic::rmw,Numeric::into_u64,Numeric::from_u64 @bounds one operation after new; every u32 initial value and operand (full width); every valid ordering :: AtomicU32::with_mut returns what std's returns (including the Ok/Err shape) and leaves std's content, for all operand values including wrap-around and sign/width boundaries
-int_harness!(atomic_u32_with_mut, AtomicU32, std::sync::atomic::AtomicU32, u32, 15);
-//@H atomic_i8_fetch_min @prop C12 @tier thorough @mode fast @cost 3 @timeout 3600 @funcs AtomicI8::new,AtomicI8::fetch_min,AtomicI8::unsync_load,Atomic::rmw,Atomic::try_rmw,rt::Atomic::rmw,Numeric::into_u64,Numeric::from_u64 @bounds one operation after new; every i8 initial value and operand (full width); every valid ordering :: AtomicI8::fetch_min returns what std's returns (including the Ok/Err shape) and leaves std's content, for all operand values including wrap-around and sign/width boundaries
-int_harness!(atomic_i8_fetch_min, AtomicI8, std::sync::atomic::AtomicI8, i8, 3);
-//@H atomic_u8_fetch_max @prop C12 @tier thorough @mode fast @cost 3 @timeout 3600 @funcs AtomicU8::new,AtomicU8::fetch_max,AtomicU8::unsync_load,Atomic::rmw,Atomic::try_rmw,rt::Atomic::rmw,Numeric::into_u64,Numeric::from_u64 @bounds one operation after new; every u8 initial value and operand (full width); every valid ordering :: AtomicU8::fetch_max returns what std's returns (including the Ok/Err shape) and leaves std's content, for all operand values including wrap-around and sign/width boundaries
-int_harness!(atomic_u8_fetch_max, AtomicU8, std::sync::atomic::AtomicU8, u8, 2);
-//@H atomic_i16_fetch_sub @prop C12 @tier thorough @mode fast @cost 3 @timeout 3600 @funcs AtomicI16::new,AtomicI16::fetch_sub,AtomicI16::unsync_load,Atomic::rmw,Atomic::try_rmw,rt::Atomic::rmw,Numeric::into_u64,Numeric::from_u64 @bounds one operation after new; every i16 initial value and operand (full width); every valid ordering :: AtomicI16::fetch_sub returns what std's returns (including the Ok/Err shape) and leaves std's content, for all operand values including wrap-around and sign/width boundaries
-int_harness!(atomic_i16_fetch_sub, AtomicI16, std::sync::atomic::AtomicI16, i16, 1);
 //@H atomic_u8_compare_exchange @prop C12 @tier thorough @mode fast @cost 3 @timeout 3600 @funcs AtomicU8::new,AtomicU8::compare_exchange,AtomicU8::unsync_load,Atomic::try_rmw,rt::Atomic::rmw,Numeric::into_u64,Numeric::from_u64 @bounds one operation after new; every u8 initial value and operands (full width); every valid success/failure ordering :: AtomicU8::compare_exchange returns what std's returns (Ok/Err shape and payload) and leaves std's content
 int_harness!(atomic_u8_compare_exchange, AtomicU8, std::sync::atomic::AtomicU8, u8, 9);
 // fetch_update is NOT encoded: its retry loop re-runs the whole modelled RMW per
